@@ -269,6 +269,34 @@ theorem stopAt_mono (t0 : Option Nat) : StopMono (stopAt t0) := by
 theorem fuelOK_prq : FuelOK prq 1 9 := by
   refine ⟨?_, ?_, ?_, ?_, ?_, by norm_num, ?_, ?_⟩ <;> norm_num [prq, Lstart]
 
+/-- **The library's default `PANOCParams`** (`panoc.hpp`, `lipschitz.hpp`): `L_0 = 0` (estimated),
+    `ε = 1e-6`, `δ = 1e-12`, `Lγ_factor = 0.95`, `max_iter = 100`, `min_linesearch_coefficient = 1/256`,
+    `linesearch_coefficient_update_factor = 0.5`, `linesearch_strictness_factor = 0.95`, `L_min = 1e-5`,
+    `L_max = 1e20`, ApproxKKT, `max_no_progress = 10`, tolerance factors `10·2⁻⁵²`, all options off;
+    `lsFuel = 4096` as in the replay drivers. -/
+def prDefault : Params ℚ :=
+  { L0 := 0, lipEps := 1/1000000, lipDelta := 1/1000000000000, LgammaFactor := 19/20, maxIter := 100,
+    minLsCoef := 1/256, lsUpdateFactor := 1/2, forceLinesearch := false, lsStrictness := 19/20,
+    Lmin := 1/100000, Lmax := 100000000000000000000, stopCrit := .ApproxKKT, maxNoProgress := 10,
+    qubTol := 10 / 4503599627370496, lsTol := 10 / 4503599627370496, updateDirInCandidate := false,
+    recomputeLastProx := false, eagerGradientEval := false, alwaysOverwrite := false,
+    tolerance := 1/100000000, lsFuel := 4096 }
+
+/-- **`FuelOK` holds for the library defaults with `n = 84`, `K = 9`**: `L_start = L_min = 1e-5`,
+    `1e20 ≤ 1e-5·2⁸⁴` (`2⁸⁴ ≈ 1.93e25`; `n = 83` would not do), `(½)⁹ = 1/512 < 1/256`,
+    `(84+1)(9+1) = 850 ≤ 4096`.  So for default parameters (and any `max_iter`, tolerance, criterion, options —
+    `FuelOK` does not read them) no loop-level theorem carries a fuel assumption. -/
+theorem fuelOK_default : FuelOK prDefault 84 9 := by
+  refine ⟨?_, ?_, ?_, ?_, ?_, by norm_num, ?_, ?_⟩ <;> norm_num [prDefault, Lstart]
+
+/-- `n = 84` is sharp for the defaults -/
+example : ¬ prDefault.Lmax ≤ Lstart prDefault * 2 ^ 83 := by norm_num [prDefault, Lstart]
+
+/-- the exit contract for the default parameters on `Pm`, no fuel assumption -/
+example : ExitOK Pm [1] [0] [1] [7] (run Pm dirNoop () prDefault (stopAt none) false [1] [0] [1] [7] [] 0 0) :=
+  panoc_exit_contract Pm dirNoop () prDefault (stopAt none) (stopAt_mono none) 84 9 fuelOK_default false
+    [1] [0] [1] [7] [] 0 0
+
 /-- a run that overwrites with status `Converged`: from `x = [1]`, `y = [0]`, `err_z = [7]` to
     `x̂ = [1199/800] ∈ [0, 3]`, `ŷ = [399/800] = ŷ(x̂)`, `err_z = (ŷ − y)/Σ = [399/800]` -/
 example : (rm prq none).stats.status = .Converged ∧ (rm prq none).wrote = true ∧
